@@ -320,7 +320,7 @@ def runKey (p : Kind × Nat) : List Event → Bool × Nat → Option (Bool × Na
     after it, for every kind and object, and nothing is left over — also when the trace is appended to an unfinished after-phase -/
 def Balanced (t : List Event) : Prop := ∀ p n, runKey p t (false, n) = some (false, n)
 
-/-! ### Entity.flush (`obj.flush()`)
+/-! ### Entity.flush (`obj.flush()`) — the per-object path, taken by created and modified objects (see `objFlushN` for the dispatch)
 
   `hookList` grows while it is iterated: after the hook of an object, the newly created objects its row refers to (`princ`, a
   parameter: relationships are not part of this model) are appended unless present.  Then `obj._save_()` writes `saveList`
@@ -398,6 +398,14 @@ def entityFlushN (nested : State → Except Err State) (H : Hooks) (princ : Stat
 /-- obj.flush() with the references as state and recursive flushes from queries inside its after_* hooks -/
 def entityFlushRefsN (H : Hooks) (ord : State → List Nat → List Nat) (bfuel depth : Nat) (s : State) (o : Nat) : Except Err State :=
   entityFlushN (flushN H ord bfuel depth) H (fun st p => st.refsOf p) (fun st p => saveDfs st (st.objs.length + 1) [] p) bfuel s o
+
+/-- `Entity.flush` as of de6b988: `if obj._status_ == 'marked_to_delete': cache.flush(); return` — the per-object flush of a deleted
+    object IS the session flush (the whole queue in its order, with all hooks); created / modified objects take the per-object path
+    (`entityFlushRefsN`: hooks of obj and of the new objects it refers to, their statements, their after-hooks) -/
+def objFlushN (H : Hooks) (ord : State → List Nat → List Nat) (bfuel depth : Nat) (s : State) (o : Nat) : Except Err State :=
+  match s.kindAt o with
+  | some .delete => flushN H ord bfuel depth s
+  | _ => entityFlushRefsN H ord bfuel depth s o
 
 def entityFlushRefs (H : Hooks) (bfuel : Nat) (s : State) (o : Nat) : Except Err State :=
   entityFlush H (fun st p => st.refsOf p) (fun st p => saveDfs st (st.objs.length + 1) [] p) bfuel s o
